@@ -206,6 +206,19 @@ static int linearizable(void) {
   return found;
 }
 
+/* OVERLAP_BUCKET=<bucket number> (scenario option): the lock word of that bucket is sampled after every free slice. Seeing two readers
+   on it means both threads hold the bucket as readers at the same time; if both then need the writer lock (their keys are present), exactly
+   one spin_rw_mutex::upgrade() succeeds in place and the other one MUST take the release-and-reacquire path (upgrade_to_writer() == false,
+   re-search from `search:` in internal_erase). With this option the vacuity witness is only accepted on such a path. */
+#ifdef OVERLAP_BUCKET
+static int both_readers;
+static void obs_overlap(void) {
+  for (int k = 0; k < nsp; k++) if (SP_IDX[k] == OVERLAP_BUCKET) { if ((vp_b_lock(vp_sparse_bucket(k)) >> 2) == 2) both_readers = 1; }
+}
+#define OBS_OVERLAP() obs_overlap();
+#else
+#define OBS_OVERLAP()
+#endif
 #ifdef MINI
 int main(void) { val_off = vp_node_val_off(); vp_m_ctor(&M); sp_init(); pre_op(PRE0); pre_op(PRE1); pre_op(PRE2); VP_REACHED(); return 0; }
 #else
@@ -233,9 +246,9 @@ int main(void) {
 #endif
 #endif
   for (int r = 0; r < ROUNDS; r++) {
-    VP_RUN(FA) VP_RUN(FB)
+    VP_RUN(FA) OBS_OVERLAP() VP_RUN(FB) OBS_OVERLAP()
 #if NT == 3
-    VP_RUN(FC)
+    VP_RUN(FC) OBS_OVERLAP()
 #endif
   }
 #if NT == 3
@@ -266,7 +279,15 @@ int main(void) {
   VP_ASSERT(vp_m_size(&M) == (u64)total, "size() != number of linked nodes at quiescence");
   VP_ASSERT(live_allocs - vp_m_segments_allocated(&M) == total, "node leaked or freed twice: live node allocations != linked nodes");
   VP_ASSERT(linearizable(), "history not linearizable: no sequential order of the operations explains the results and the final content");
+#ifdef FINAL_COUNT
+  /* the real sequential count() agrees with the census for every universe key (erased keys are not found, the others are) */
+  for (int i = 0; i < NKEYS; i++) if (UK[i] != 0 && uidx(UK[i]) == i) VP_ASSERT(vp_m_count(&M, UK[i]) == final_[i], "sequential count() after quiescence disagrees with the linked nodes");
+#endif
+#ifdef OVERLAP_BUCKET
+  if (both_readers) VP_REACHED();     /* witness: a complete run in which the non-atomic upgrade path was forced exists */
+#else
   VP_REACHED();
+#endif
   return 0;
 }
 #endif
